@@ -123,8 +123,57 @@ def _norm_parts(parts):
     return out
 
 
+class _RenameVar(ast.NodeTransformer):
+    def __init__(self, m):
+        self.m = m
+
+    def visit_Name(self, n):
+        return ast.copy_location(ast.Name(id=self.m[n.id], ctx=n.ctx), n) if n.id in self.m else n
+
+
 class _Canon(ast.NodeTransformer):
+    _depth = 0
+
+    def _comp(self, node):
+        """comprehension variables get positional names (_k<depth>_<i>): renaming them changes nothing"""
+        _Canon._depth += 1
+        try:
+            m = {}
+            for g in node.generators:
+                for x in ast.walk(g.target):
+                    if isinstance(x, ast.Name):
+                        m.setdefault(x.id, '_k%d_%d' % (_Canon._depth, len(m)))
+            node = _RenameVar(m).visit(node)
+            self.generic_visit(node)
+            return node
+        finally:
+            _Canon._depth -= 1
+
+    def visit_ListComp(self, node):
+        return self._comp(node)
+
+    def visit_GeneratorExp(self, node):
+        return self._comp(node)
+
+    def visit_SetComp(self, node):
+        return self._comp(node)
+
+    def visit_DictComp(self, node):
+        return self._comp(node)
+
     def visit_Call(self, node):
+        # list(filter(f, xs)) == [x for x in xs if f(x)] ; list(map(f, xs)) == [f(x) for x in xs]  (f a plain name or None)
+        if isinstance(node.func, ast.Name) and node.func.id in ('list', 'tuple') and len(node.args) == 1 and not node.keywords \
+                and isinstance(node.args[0], ast.Call) and isinstance(node.args[0].func, ast.Name) and node.args[0].func.id in ('filter', 'map') \
+                and len(node.args[0].args) == 2 and not node.args[0].keywords and node.func.id == 'list':
+            inner = node.args[0]
+            fexpr, xs = inner.args
+            if (isinstance(fexpr, ast.Constant) and fexpr.value is None and inner.func.id == 'filter') or isinstance(fexpr, (ast.Name, ast.Attribute)):
+                v = ast.Name(id='_x', ctx=ast.Load())
+                app = v if isinstance(fexpr, ast.Constant) else ast.Call(func=fexpr, args=[v], keywords=[])
+                gen = ast.comprehension(target=ast.Name(id='_x', ctx=ast.Store()), iter=xs, ifs=[app] if inner.func.id == 'filter' else [], is_async=0)
+                comp = ast.ListComp(elt=(v if inner.func.id == 'filter' else app), generators=[gen])
+                return self.visit(ast.fix_missing_locations(comp))
         self.generic_visit(node)
         # super(C, self) == super() inside a method of C
         if isinstance(node.func, ast.Name) and node.func.id == 'super' and len(node.args) == 2:
